@@ -505,6 +505,8 @@ pub enum OOp {
     /// insert of every key lo, lo + step, .. <= hi (value k * 1000 + 7), observed as one call;
     /// ord: 0 ascending, 1 descending, 2 a fixed pseudo-random order
     Bulk { lo: i32, hi: i32, step: i32, ord: i32 },
+    /// delete of every key lo, lo + step, .. <= hi, observed as one call (same orders)
+    BulkDel { lo: i32, hi: i32, step: i32, ord: i32 },
 }
 
 pub fn bulk_keys(lo: i32, hi: i32, step: i32, ord: i32) -> Vec<i32> {
@@ -536,6 +538,7 @@ impl OOp {
             "before" => OOp::Before { h: h("h")? },
             "clear" => OOp::Clear,
             "bulk" => OOp::Bulk { lo: n("lo")?, hi: n("hi")?, step: n("step")?, ord: n("ord")? },
+            "bulkdel" => OOp::BulkDel { lo: n("lo")?, hi: n("hi")?, step: n("step")?, ord: n("ord")? },
             _ => return None,
         })
     }
@@ -554,6 +557,7 @@ impl OOp {
             OOp::Before { h } => format!("\"op\":\"before\",\"h\":{}", r32(*h)),
             OOp::Clear => "\"op\":\"clear\"".to_string(),
             OOp::Bulk { lo, hi, step, ord } => format!("\"op\":\"bulk\",\"lo\":{lo},\"hi\":{hi},\"step\":{step},\"ord\":{ord}"),
+            OOp::BulkDel { lo, hi, step, ord } => format!("\"op\":\"bulkdel\",\"lo\":{lo},\"hi\":{hi},\"step\":{step},\"ord\":{ord}"),
         }
     }
 }
@@ -891,7 +895,7 @@ impl<'a, C: OrdColl> OrdSession<'a, C> {
             }
             OOp::Bulk { lo, hi, step, ord } => {
                 let ks = bulk_keys(*lo, *hi, *step, *ord);
-                let (vm, va) = if C::PLAIN { (1, 0) } else { (1000, 7) };
+                let (vm, va) = if C::PLAIN { (1, 0) } else if *hi > 1_000_000 { (100, 7) } else { (1000, 7) };
                 let _ = write!(extra, ",\"vm\":{},\"va\":{}", vm, va);
                 let o = observe(arm, || {
                     for k in &ks {
@@ -900,6 +904,19 @@ impl<'a, C: OrdColl> OrdSession<'a, C> {
                     0i64
                 });
                 self.mine.extend(ks);
+                o
+            }
+            OOp::BulkDel { lo, hi, step, ord } => {
+                let ks = bulk_keys(*lo, *hi, *step, *ord);
+                let o = observe(arm, || {
+                    for k in &ks {
+                        c.delete(*k);
+                    }
+                    0i64
+                });
+                for k in ks {
+                    self.mine.remove(&k);
+                }
                 o
             }
             OOp::Del { k } => {
@@ -987,7 +1004,7 @@ impl<'a, C: OrdColl> OrdSession<'a, C> {
         if let Outcome::Ok(r) = &o.out {
             res = *r;
             match op {
-                OOp::Ins { .. } | OOp::Del { .. } | OOp::Write { .. } | OOp::DelH { .. } | OOp::Clear | OOp::Bulk { .. } => {}
+                OOp::Ins { .. } | OOp::Del { .. } | OOp::Write { .. } | OOp::DelH { .. } | OOp::Clear | OOp::Bulk { .. } | OOp::BulkDel { .. } => {}
                 _ => {
                     let _ = write!(extra, ",\"res\":{}", r);
                 }
@@ -1532,9 +1549,29 @@ pub fn run_scale<C: OrdColl>(tr: &mut Trace, plan: &[(i32, i32)], seed: u64, ful
             }
             s.apply(&OOp::Get { k: far + 2 * inward }, 0);
             s.apply(&OOp::Fil { p: far + 1 }, 0);
-            s.apply(&OOp::Ins { k: far + 1, v: (far + 1) * 1000 + 3 }, 0);
+            s.apply(&OOp::Ins { k: far + 1, v: (far + 1) * 100 + 3 }, 0);
             s.apply(&OOp::Get { k: far + 1 }, 0);
             s.apply(&OOp::Empty, 0);
+            // ... and the deep tree is cleared (or drained key by key, every other round) and used again
+            let clear_it = if n > 500_000 { ord == 1 } else { (ord as i64 + seed as i64) % 2 == 0 };
+            if clear_it {
+                s.apply(&OOp::Clear, 0);
+            } else {
+                s.apply(&OOp::BulkDel { lo: 0, hi: 2 * n + 2, step: 1, ord: 1 - ord }, 0);
+            }
+            s.apply(&OOp::Empty, 0);
+            s.apply(&OOp::Bulk { lo: 1, hi: 79, step: 2, ord: 2 }, 0);
+            for k in (1..=79).step_by(4) {
+                s.apply(&OOp::Del { k }, 0);
+            }
+            for k in [1, 3, 39, 41, 77, 79, 80] {
+                s.apply(&OOp::Get { k }, 0);
+                s.apply(&OOp::Fil { p: k }, 0);
+            }
+            s.apply(&OOp::Ins { k: 2, v: 2009 }, 0);
+            s.apply(&OOp::Ins { k: 4, v: 4009 }, 0);
+            s.apply(&OOp::Get { k: 2 }, 0);
+            s.apply(&OOp::Get { k: 3 }, 0);
         }
     }
     for (round, (n1, n2)) in plan.iter().enumerate() {
